@@ -1,14 +1,13 @@
 (* Observation commands of the version domain (C01, C02, C12-version).  Definitions only. *)
 From Coq Require Import List NArith Bool String.
 Import ListNotations.
-Require Import S1 VParse VDec Py VMeaning VCmp SpecModel Canon Show.
+Require Import S1 VParse VDec Py VMeaning VCmp SpecModel Canon VObsModel Show.
 Open Scope N_scope.
 
 Definition show_letnum (p : list N * N) : list N := fst p ++ [44] ++ show_N (snd p).
 Definition show_num (p : list N * N) : list N := show_N (snd p).
 Definition local_str (l : list (N + list N)) : list N := join [46] (map c_seg l).
-Definition is_devrelease (v : version) : bool := match dev v with Some _ => true | None => false end.
-Definition rel_nth (n : nat) (v : version) : N := nth n (release v) 0.
+(* is_devrelease, rel_nth (major/minor/micro), lt_v, insert_v, sort_v, all_some: Ver/VObsModel.v (laws in Ver/VSortLaws.v, Ver/VReading.v) *)
 
 Definition obs_version (s : list N) : list N :=
   match Version s with
@@ -29,14 +28,13 @@ Definition obs_cmp (a b : list N) : list N :=
   | _, _ => asc "E"
   end.
 
-(* sorted(): a stable sort that only ever asks `<` (list.sort uses __lt__) *)
-Definition lt_v (x y : version) : bool := match rich Lt_ (key x) (key y) with Some true => true | _ => false end.
-Fixpoint insert_v (x : version) (l : list version) : list version :=
-  match l with [] => [x] | y :: t => if lt_v y x then y :: insert_v x t else x :: l end.
-(* insertion from the right keeps equal elements in input order *)
-Definition sort_v (l : list version) : list version := fold_right insert_v [] l.
-Fixpoint all_some {A} (l : list (option A)) : option (list A) :=
-  match l with [] => Some [] | Some a :: t => option_map (cons a) (all_some t) | None :: _ => None end.
+(* v.cmp plus "the two keys are structurally equal" (the implementation side reports hash(x) == hash(y)) *)
+Definition obs_cmph (a b : list N) : list N :=
+  match Version a, Version b with
+  | Some x, Some y => obs_cmp a b ++ bar ++ show_bool (pv_eqb (key x) (key y))
+  | _, _ => asc "E"
+  end.
+
 Definition obs_sort (args : list (list N)) : list N :=
   match all_some (map Version args) with
   | Some vs => join [44] (map vstr (sort_v vs))
@@ -48,6 +46,7 @@ Definition obs_canon (strip : bool) (s : list N) : list N := canon strip s.
 Definition run_version (cmd : list N) (args : list (list N)) : option (list N) :=
   if seqb cmd (asc "v.parse") then Some (obs_version (nth_str 0 args))
   else if seqb cmd (asc "v.cmp") then Some (obs_cmp (nth_str 0 args) (nth_str 1 args))
+  else if seqb cmd (asc "v.cmph") then Some (obs_cmph (nth_str 0 args) (nth_str 1 args))
   else if seqb cmd (asc "v.sort") then Some (obs_sort args)
   else if seqb cmd (asc "v.canon") then Some (obs_canon (parse_bool (nth_str 0 args)) (nth_str 1 args))
   else None.
